@@ -163,6 +163,7 @@ theorem handle_kept {s0 : Sys} (c : Cid) (e : Env) (i : Nat) (hv : Valid s0) (hc
     simp only [hdead, and_self, if_true]
     cases hm : e.msg with
     | deadLetter x u d => rw [hm] at hnd; simp [isDL] at hnd
+    | onKill p => simp [carried, hm] at hi
     | _ => simp only; exact held_deadLetter s0 e i hcar
   · rename_i hlive
     cases hm : e.msg with
